@@ -280,6 +280,31 @@ theorem dissolve_preserves (d : Dict) (n : Name) :
       | dflt x => rfl
       | built g => rfl
 
+/-! ## decoration that fails, fails every time -/
+
+/-- **failed_decoration_fails_again.** A lazily bootstrapped class whose
+decoration raises (unresolvable singular-name collision → `RuntimeError`) raises
+the same error on EVERY use, however many there are: the class never becomes
+usable half-built. -/
+theorem failed_decoration_fails_again {c : Cls} {e : Err} (h : decorate singular c = .error e) (n : Nat) :
+    lazyUses singular c n .pending = (.pending, List.replicate n (.error e)) := by
+  induction n with
+  | zero => rfl
+  | succ n ih =>
+    simp only [lazyUses, lazyUse, h, ih, List.replicate_succ]
+
+/-- … and one that succeeds is bootstrapped by the first use, exactly once -/
+theorem lazy_bootstrap_once {c : Cls} {d : Decorated} (h : decorate singular c = .ok d) (n : Nat) :
+    (lazyUses singular c (n + 1) .pending).2 = List.replicate (n + 1) (.ok ()) ∧
+    (∃ d', (lazyUses singular c (n + 1) .pending).1 = .done d' ∧ d'.dict = d.dict ∧ d'.attrs = d.attrs) := by
+  have hdone : ∀ m, lazyUses singular c m (.done d) = (.done d, List.replicate m (.ok ())) := by
+    intro m
+    induction m with
+    | zero => rfl
+    | succ m ih => simp only [lazyUses, lazyUse, ih, List.replicate_succ]
+  simp only [lazyUses, lazyUse, h, hdone]
+  exact ⟨by simp [List.replicate_succ], d, rfl, rfl, rfl⟩
+
 /-! ## children of a spec-class parent (open finding KF-C16-inherited-singular, DESIGN D19) -/
 
 /-- the full statement: decorating a child never hides a helper the parent
